@@ -60,7 +60,9 @@ def build(w):
         return xr.Dataset({k: build(v) for k, v in w['vars'].items()}, attrs=build(w.get('attrs', {})))
     if t == 'func':
         from sx import userfuncs
-        return getattr(userfuncs, w['name'])
+        return getattr(userfuncs, w['name'] + '_numba', None) or getattr(userfuncs, w['name'])
+    if t == 'libfunc':
+        return resolve(w['module'], w['name'])
     if t == 'scalar':
         return np.dtype(w['dtype']).type(w['v'])
     if t == 'labels':
@@ -89,7 +91,7 @@ def dump(o):
     if isinstance(o, np.generic):
         return {'__t': 'scalar', 'v': o.item(), 'dtype': str(o.dtype)}
     if isinstance(o, np.ndarray):
-        if o.dtype == object or o.dtype.kind in 'US':
+        if o.dtype == object or o.dtype.kind in 'UST':
             return {'__t': 'labels', 'v': [x if isinstance(x, str) else _num(x) for x in o.ravel().tolist()]}
         return {'__t': 'nd', 'data': o.ravel().tolist(), 'dtype': str(o.dtype), 'shape': list(o.shape),
                 'writeable': bool(o.flags.writeable)}
